@@ -9,6 +9,8 @@ C01.c the filename escape/unescape tables are inverse: every escape the writer e
 C01.d blob encode/decode pairing: encrypt_data records an uncompressed length exactly on the path that compresses, and
   read_encrypted_from_partial decompresses exactly when one is recorded.
 C01.e offsets: file offsets advance by each blob's length (restore plan) and pack offsets by each appended length.
+C01.g restore reuses existing destination content only for exact-size regular files and keeps read-back sources
+  attached to the request they were verified for (C14.f, C14.h).
 C01.f restore writes each blob at the offset recorded for it, taken from the read of the matching range.
 """
 import re
@@ -26,7 +28,8 @@ NOT_DECIDED = ["equality of restored bytes, names, types, link targets, permissi
 def run(ctx, rep):
     prog = ctx.prog
     for r, tx in (("C01.a", "typed blob identity in the shared indexer"), ("C01.b", "chunker parameters validated for every variant"), ("C01.c", "filename escape tables are inverse"),
-                  ("C01.d", "compress/decompress pairing"), ("C01.e", "offsets advance by the appended/processed length"), ("C01.f", "restore writes blobs at their recorded offsets")):
+                  ("C01.d", "compress/decompress pairing"), ("C01.e", "offsets advance by the appended/processed length"), ("C01.f", "restore writes blobs at their recorded offsets"),
+                  ("C01.g", "restore reuses existing destination bytes only where they are known to match")):
         rep.rule(r, tx)
     from rules import typedid, C18, C14, C08
     from rules.C10 import borrow
@@ -36,6 +39,9 @@ def run(ctx, rep):
     n = borrow(rep, ctx, C14, lambda o: o.rule == "C14.g", "C01.e")
     n += borrow(rep, ctx, C08, lambda o: o.rule == "C08.c", "C01.e")
     rep.floor("C01.e", "borrowed obligations", n, 4)
+    # restore-side necessary conditions for byte equality (decided in C14)
+    n = borrow(rep, ctx, C14, lambda o: o.rule in ("C14.f", "C14.h"), "C01.g")
+    rep.floor("C01.g", "borrowed obligations", n, 3)
     # ---- C01.c -------------------------------------------------------------------------------------
     ESC = prog.find1(r"^rustic_core::backend::node::escape_filename$")
     UNE = prog.find1(r"^rustic_core::backend::node::unescape_filename$")
